@@ -1,28 +1,47 @@
 //! C22 — statistics-based pruning never skips a container with a matching row.
-//! Tie (K, refinement): real `PruningPredicateBuilder::try_build(expr).prune(&stats)` with a
-//! harness `PruningStatistics` computed from generated row sets and randomly weakened (bounds
-//! loosened, statistics unknown per container or per column, junk bounds for all-NULL columns).
-//!   (i)  `prune` request carries the impl's keep/skip bits; the Lean model answers `ok` iff
-//!        impl_skip ⇒ model_skip;
-//!   (ii) oracle (no model): impl_skip ⇒ no row of the container satisfies the predicate,
-//!        evaluated row-by-row by the engine (`PhysicalExpr::evaluate` on the container's rows);
-//!   (iii) `eval` request: Lean row semantics == engine row semantics on every container.
-//! A second oracle-only pass answers `contained()` correctly from the real value sets
-//! (LiteralGuarantee first pass).
+//!
+//! Two generators feed the real `PruningPredicateBuilder::try_build(expr).prune(&stats)`:
+//!
+//! * **modelled fragment** (`E`): comparisons, `=`/`!=`, IS [NOT] NULL, IS [NOT] DISTINCT FROM a
+//!   literal, boolean column / NOT column, NOT, AND, OR, [NOT] IN — every case goes to the Lean
+//!   model: `prune` (refinement: impl_skip ⇒ model_skip) and `eval` (Lean row semantics == engine);
+//! * **wide generator** (`wide_expr`): everything the rewrite accepts or gives up on — IS [NOT]
+//!   DISTINCT FROM over int/bool/string columns, literals incl. NULL and column-column; LIKE / NOT
+//!   LIKE / ILIKE / NOT ILIKE on Utf8 and Utf8View with prefixes containing `%`, `_`, `\%`, `\_`,
+//!   `\\`, backslash + ordinary character, trailing backslash, empty prefix, non-ASCII, U+007F and
+//!   U+10FFFF (`increment_utf8` edges); CAST / TRY_CAST to narrower ints and to strings; `-col`;
+//!   `col ± k`, `col * k`; boolean column vs literal; string comparisons; [NOT] IN lists with NULLs,
+//!   with > 20 items and with non-literal members; nested AND / OR / NOT of all of these.  The model
+//!   answers `unsupported` for these (counted as uncovered); the **model-free oracle** runs on all:
+//!
+//!   (ii) impl skipped a container ⇒ no row of it satisfies the predicate, the predicate being
+//!        evaluated row by row by the ENGINE; run with `contained() = None` and with a
+//!        `contained()` computed exactly from the rows (randomly answering None);
+//!   (iv) `LiteralGuarantee::analyze(p)`: every row satisfying `p` satisfies every guarantee.
+//!
+//! Statistics: exact from the rows, then weakened (looser bounds, unknown per container / per
+//! column for min, max, null_count, row_count in every combination, junk bounds on all-NULL columns).
+use std::cell::RefCell;
 use std::collections::HashSet;
 use std::sync::Arc;
 
-use arrow::array::{Array, ArrayRef, BooleanArray, Int64Array, RecordBatch, UInt64Array};
+use arrow::array::{Array, ArrayRef, BooleanArray, Int64Array, RecordBatch, StringArray, StringViewArray, UInt64Array};
 use arrow::datatypes::{DataType, Field, Schema, SchemaRef};
 use datafusion_common::{Column as DfColumn, ScalarValue};
 use datafusion_expr_common::operator::Operator;
 use datafusion_physical_expr::PhysicalExpr;
-use datafusion_physical_expr::expressions::{BinaryExpr, Column, IsNotNullExpr, IsNullExpr, Literal, NotExpr, in_list};
+use datafusion_physical_expr::expressions::{BinaryExpr, Column, IsNotNullExpr, IsNullExpr, LikeExpr, Literal, NegativeExpr, NotExpr, cast, in_list, try_cast};
+use datafusion_physical_expr::utils::{Guarantee, LiteralGuarantee};
 use datafusion_pruning::{PruningPredicateBuilder, PruningStatistics};
 use hutil::{Args, Rng, Run};
 
-const NI: usize = 2; // int columns i0, i1
-const NB: usize = 1; // bool column b0
+const NI: usize = 2; // int columns i0, i1          (schema index 0, 1)
+const NB: usize = 1; // bool column b0              (schema index 2)
+const NS: usize = 2; // string columns s0 Utf8, s1 Utf8View (schema index 3, 4)
+
+type PE = Arc<dyn PhysicalExpr>;
+
+// ------------------------------------------------------------------ modelled fragment
 
 #[derive(Clone, Debug)]
 enum E {
@@ -37,6 +56,8 @@ enum E {
     And(Box<E>, Box<E>),
     Or(Box<E>, Box<E>),
     In(usize, Vec<Option<i64>>, bool),
+    /// (negated = IS NOT DISTINCT FROM, column, literal, literal on the left)
+    Distinct(bool, usize, Option<i64>, bool),
 }
 
 fn s_oi(v: Option<i64>) -> String {
@@ -48,6 +69,43 @@ fn s_ob(v: Option<bool>) -> String {
         Some(false) => "f".into(),
         None => "n".into(),
     }
+}
+
+fn icol(c: usize) -> PE {
+    Arc::new(Column::new(&format!("i{c}"), c))
+}
+fn bcol(c: usize) -> PE {
+    Arc::new(Column::new(&format!("b{c}"), NI + c))
+}
+fn scol(c: usize) -> PE {
+    Arc::new(Column::new(&format!("s{c}"), NI + NB + c))
+}
+fn ilit(v: Option<i64>) -> PE {
+    Arc::new(Literal::new(ScalarValue::Int64(v)))
+}
+fn blit(v: Option<bool>) -> PE {
+    Arc::new(Literal::new(ScalarValue::Boolean(v)))
+}
+/// string literal of the column's own type (s0: Utf8, s1: Utf8View)
+fn slit(c: usize, v: Option<&str>) -> PE {
+    let v = v.map(|x| x.to_string());
+    Arc::new(Literal::new(if c == 0 { ScalarValue::Utf8(v) } else { ScalarValue::Utf8View(v) }))
+}
+fn slit_o(c: usize, v: Option<String>) -> PE {
+    slit(c, v.as_deref())
+}
+fn cmp_op(o: &str) -> Operator {
+    match o {
+        "eq" => Operator::Eq,
+        "ne" => Operator::NotEq,
+        "lt" => Operator::Lt,
+        "le" => Operator::LtEq,
+        "gt" => Operator::Gt,
+        _ => Operator::GtEq,
+    }
+}
+fn bin(l: PE, op: Operator, r: PE) -> PE {
+    Arc::new(BinaryExpr::new(l, op, r))
 }
 
 impl E {
@@ -63,11 +121,8 @@ impl E {
             E::Not(e) => format!("(not {})", e.sexp()),
             E::And(a, b) => format!("(and {} {})", a.sexp(), b.sexp()),
             E::Or(a, b) => format!("(or {} {})", a.sexp(), b.sexp()),
-            E::In(c, ls, n) => format!(
-                "(in {c} ({}) {})",
-                ls.iter().map(|l| s_oi(*l)).collect::<Vec<_>>().join(" "),
-                if *n { "t" } else { "f" }
-            ),
+            E::In(c, ls, n) => format!("(in {c} ({}) {})", ls.iter().map(|l| s_oi(*l)).collect::<Vec<_>>().join(" "), if *n { "t" } else { "f" }),
+            E::Distinct(neg, c, l, _) => format!("(distinct {} {c} {})", if *neg { "t" } else { "f" }, s_oi(*l)),
         }
     }
     fn kind(&self) -> &'static str {
@@ -83,6 +138,8 @@ impl E {
             E::And(..) => "and",
             E::Or(..) => "or",
             E::In(..) => "in",
+            E::Distinct(false, ..) => "is-distinct-from",
+            E::Distinct(true, ..) => "is-not-distinct-from",
         }
     }
     fn count_kinds(&self, run: &mut Run) {
@@ -96,37 +153,68 @@ impl E {
             _ => {}
         }
     }
-    fn phys(&self, schema: &Schema) -> Arc<dyn PhysicalExpr> {
-        let icol = |c: usize| Arc::new(Column::new(&format!("i{c}"), c)) as Arc<dyn PhysicalExpr>;
-        let bcol = |c: usize| Arc::new(Column::new(&format!("b{c}"), NI + c)) as Arc<dyn PhysicalExpr>;
-        let ilit = |v: Option<i64>| Arc::new(Literal::new(ScalarValue::Int64(v))) as Arc<dyn PhysicalExpr>;
-        let op = |o: &str| match o {
-            "eq" => Operator::Eq,
-            "ne" => Operator::NotEq,
-            "lt" => Operator::Lt,
-            "le" => Operator::LtEq,
-            "gt" => Operator::Gt,
-            _ => Operator::GtEq,
-        };
+    fn phys(&self, schema: &Schema) -> PE {
         match self {
-            E::Lit(b) => Arc::new(Literal::new(ScalarValue::Boolean(*b))),
-            E::Cmp(o, c, l) => Arc::new(BinaryExpr::new(icol(*c), op(o), ilit(*l))),
-            E::CmpR(o, l, c) => Arc::new(BinaryExpr::new(ilit(*l), op(o), icol(*c))),
-            E::CC(o, a, b) => Arc::new(BinaryExpr::new(icol(*a), op(o), icol(*b))),
+            E::Lit(b) => blit(*b),
+            E::Cmp(o, c, l) => bin(icol(*c), cmp_op(o), ilit(*l)),
+            E::CmpR(o, l, c) => bin(ilit(*l), cmp_op(o), icol(*c)),
+            E::CC(o, a, b) => bin(icol(*a), cmp_op(o), icol(*b)),
             E::IsNull(c) => Arc::new(IsNullExpr::new(icol(*c))),
             E::IsNotNull(c) => Arc::new(IsNotNullExpr::new(icol(*c))),
             E::BCol(c) => bcol(*c),
             E::Not(e) => Arc::new(NotExpr::new(e.phys(schema))),
-            E::And(a, b) => Arc::new(BinaryExpr::new(a.phys(schema), Operator::And, b.phys(schema))),
-            E::Or(a, b) => Arc::new(BinaryExpr::new(a.phys(schema), Operator::Or, b.phys(schema))),
+            E::And(a, b) => bin(a.phys(schema), Operator::And, b.phys(schema)),
+            E::Or(a, b) => bin(a.phys(schema), Operator::Or, b.phys(schema)),
             E::In(c, ls, n) => in_list(icol(*c), ls.iter().map(|l| ilit(*l)).collect(), n, schema).unwrap(),
+            E::Distinct(neg, c, l, left) => {
+                let op = if *neg { Operator::IsNotDistinctFrom } else { Operator::IsDistinctFrom };
+                if *left { bin(ilit(*l), op, icol(*c)) } else { bin(icol(*c), op, ilit(*l)) }
+            }
         }
     }
 }
 
 const OPS: [&str; 6] = ["eq", "ne", "lt", "le", "gt", "ge"];
 
-fn gen_lit(rng: &mut Rng) -> Option<i64> {
+/// values that really occur in the generated containers: literals and patterns are drawn from
+/// them half of the time so that predicates hit the data (min == max == literal, prefixes of
+/// stored strings, …) instead of almost always missing it
+#[derive(Default)]
+struct Hints {
+    ints: Vec<i64>,
+    strs: Vec<String>,
+}
+impl Hints {
+    fn int(&self, rng: &mut Rng) -> Option<i64> {
+        if self.ints.is_empty() { None } else { Some(*rng.pick(&self.ints)) }
+    }
+    fn string(&self, rng: &mut Rng) -> Option<String> {
+        if self.strs.is_empty() { None } else { Some(rng.pick(&self.strs).clone()) }
+    }
+    /// a LIKE pattern built from a stored string: a prefix of it, wildcard characters escaped,
+    /// ordinary characters sometimes escaped too (`\x` means `x`), then a tail
+    fn pattern(&self, rng: &mut Rng) -> Option<String> {
+        let s = self.string(rng)?;
+        let chars: Vec<char> = s.chars().collect();
+        let k = rng.below(chars.len() as u64 + 1) as usize;
+        let mut p = String::new();
+        for c in &chars[..k] {
+            if matches!(c, '%' | '_' | '\\') || rng.chance(1, 4) {
+                p.push('\\');
+            }
+            p.push(*c);
+        }
+        p.push_str(*rng.pick(&["%", "%", "", "_", "%z", "_%"]));
+        Some(p)
+    }
+}
+
+fn gen_lit(rng: &mut Rng, h: &Hints) -> Option<i64> {
+    if rng.chance(1, 2) {
+        if let Some(v) = h.int(rng) {
+            return Some(v);
+        }
+    }
     match rng.below(12) {
         0 => None,
         1 => Some(i64::MIN),
@@ -135,37 +223,341 @@ fn gen_lit(rng: &mut Rng) -> Option<i64> {
     }
 }
 
-fn gen_expr(rng: &mut Rng, depth: u32) -> E {
+fn gen_expr(rng: &mut Rng, depth: u32, h: &Hints) -> E {
     let leaf = depth == 0 || rng.chance(1, 3);
     if leaf {
-        match rng.below(20) {
+        match rng.below(24) {
             0 => E::Lit(*rng.pick(&[Some(true), Some(false), None])),
-            1..=7 => E::Cmp(*rng.pick(&OPS), rng.below(NI as u64) as usize, gen_lit(rng)),
-            8..=10 => E::CmpR(*rng.pick(&OPS), gen_lit(rng), rng.below(NI as u64) as usize),
+            1..=7 => E::Cmp(*rng.pick(&OPS), rng.below(NI as u64) as usize, gen_lit(rng, h)),
+            8..=10 => E::CmpR(*rng.pick(&OPS), gen_lit(rng, h), rng.below(NI as u64) as usize),
             11 => E::CC(*rng.pick(&OPS), 0, 1),
             12 | 13 => E::IsNull(rng.below(NI as u64) as usize),
             14 | 15 => E::IsNotNull(rng.below(NI as u64) as usize),
             16 => E::BCol(0),
             17 => E::Not(Box::new(E::BCol(0))),
+            18..=21 => {
+                let l = if rng.chance(1, 4) { None } else { gen_lit(rng, h) };
+                E::Distinct(rng.chance(1, 2), rng.below(NI as u64) as usize, l, rng.chance(1, 3))
+            }
             _ => {
                 let n = if rng.chance(1, 12) { 21 + rng.below(3) } else { 1 + rng.below(4) };
-                let ls = (0..n).map(|_| gen_lit(rng)).collect();
+                let ls = (0..n).map(|_| gen_lit(rng, h)).collect();
                 E::In(rng.below(NI as u64) as usize, ls, rng.chance(1, 2))
             }
         }
     } else {
         match rng.below(7) {
-            0..=2 => E::And(Box::new(gen_expr(rng, depth - 1)), Box::new(gen_expr(rng, depth - 1))),
-            3..=5 => E::Or(Box::new(gen_expr(rng, depth - 1)), Box::new(gen_expr(rng, depth - 1))),
-            _ => E::Not(Box::new(gen_expr(rng, depth - 1))),
+            0..=2 => E::And(Box::new(gen_expr(rng, depth - 1, h)), Box::new(gen_expr(rng, depth - 1, h))),
+            3..=5 => E::Or(Box::new(gen_expr(rng, depth - 1, h)), Box::new(gen_expr(rng, depth - 1, h))),
+            _ => E::Not(Box::new(gen_expr(rng, depth - 1, h))),
         }
     }
 }
+
+// ------------------------------------------------------------------ wide generator (oracle only)
+
+/// string values rows are drawn from (base + suffix); patterns are drawn from the same alphabet
+const S_BASE: [&str; 10] = ["fo", "foo", "f", "", "é", "fo\u{7f}", "fo\u{10FFFF}", "FO", "fo\\", "\u{10FFFF}"];
+const S_SUFFIX: [&str; 14] = ["", "a", "o", "%", "_", "\\", "\u{10FFFF}", "z", "o\\o", "ob", "p", "\u{7f}", "é", "O"];
+/// LIKE patterns: prefixes with `%`, `_`, `\%`, `\_`, `\\`, backslash + ordinary char, trailing
+/// backslash, empty prefix, non-ASCII, U+007F / U+10FFFF (increment_utf8 edges)
+const PATTERNS: [&str; 40] = [
+    "foo%", "fo%", "f%", "%", "", "foo", "fo_", "f_o", "_", "%foo", "%o%", "f%o", "foo%a", "fo%%",
+    "fo\\%%", "fo\\%", "fo\\_%", "fo\\_", "fo\\\\%", "fo\\\\", "fo\\o%", "f\\oo", "f\\oo%", "\\foo%", "fo\\ob%",
+    "foo\\", "fo\\", "\\", "é%", "é", "fo\u{7f}%", "fo\u{10FFFF}%", "\u{10FFFF}%", "\u{10FFFF}\u{10FFFF}%", "fo\u{10FFFF}",
+    "FO%", "Fo%", "fO_", "foo_%", "fo\u{7f}\u{10FFFF}%",
+];
+const S_LITS: [&str; 10] = ["foo", "fo", "", "fop", "é", "fo\u{10FFFF}", "FO", "foo%", "g", "fooa"];
+
+fn gen_str(rng: &mut Rng, base: &str) -> String {
+    format!("{base}{}", rng.pick(&S_SUFFIX))
+}
+
+/// what a top-level leaf is, for the generator-sensitivity counters (does the run contain inputs on
+/// which a plausible defect in that branch of the rewrite would change the answer?)
+#[derive(Clone, Debug)]
+enum Probe {
+    /// `icol IS DISTINCT FROM <non-null int literal>`
+    DistinctLit(usize, i64),
+    /// `scol LIKE pattern`, pattern containing backslash + ordinary character
+    LikeBackslash(usize, String),
+    /// `icol IN (literals…, non-literal)` (not negated)
+    InNonLiteral(usize, Vec<i64>),
+}
+
+fn wide_leaf(rng: &mut Rng, schema: &Schema, tags: &mut Vec<&'static str>, h: &Hints, probe: &mut Option<Probe>) -> PE {
+    let ic = rng.below(NI as u64) as usize;
+    let sc = rng.below(NS as u64) as usize;
+    let small = |rng: &mut Rng| {
+        if rng.chance(1, 10) {
+            None
+        } else if rng.chance(1, 2) {
+            h.int(rng).filter(|v| (-100..=100).contains(v)).or(Some(rng.range(-4, 6)))
+        } else {
+            Some(rng.range(-4, 6))
+        }
+    };
+    // a string literal: from the data half of the time
+    let sl = |rng: &mut Rng| -> String {
+        if rng.chance(1, 2) {
+            if let Some(x) = h.string(rng) {
+                return x;
+            }
+        }
+        rng.pick(&S_LITS).to_string()
+    };
+    match rng.below(30) {
+        0..=2 => {
+            // IS [NOT] DISTINCT FROM on every column type; literal incl. NULL; either side; col-col
+            let op = if rng.chance(1, 2) { tags.push("is-distinct-from"); Operator::IsDistinctFrom } else { tags.push("is-not-distinct-from"); Operator::IsNotDistinctFrom };
+            let (c, l): (PE, PE) = match rng.below(4) {
+                0 => (bcol(0), blit(*rng.pick(&[Some(true), Some(false), None]))),
+                1 => (scol(sc), slit_o(sc, if rng.chance(1, 5) { None } else { Some(sl(rng)) })),
+                2 => {
+                    tags.push("distinct-col-col");
+                    (icol(0), icol(1))
+                }
+                _ => {
+                    let v = small(rng);
+                    if let (Some(v), Operator::IsDistinctFrom) = (v, op) {
+                        *probe = Some(Probe::DistinctLit(ic, v));
+                    }
+                    (icol(ic), ilit(v))
+                }
+            };
+            if rng.chance(1, 3) { bin(l, op, c) } else { bin(c, op, l) }
+        }
+        3..=9 => {
+            // LIKE family
+            let negated = rng.chance(1, 3);
+            let ci = rng.chance(1, 6);
+            tags.push(match (negated, ci) {
+                (false, false) => "like",
+                (true, false) => "not-like",
+                (false, true) => "ilike",
+                (true, true) => "not-ilike",
+            });
+            let from_data = if rng.chance(1, 3) { h.pattern(rng) } else { None };
+            if from_data.is_some() {
+                tags.push("like-pattern-from-data");
+            }
+            let pat: String = from_data.unwrap_or_else(|| rng.pick(&PATTERNS).to_string());
+            let pat = pat.as_str();
+            if pat.contains("\\") {
+                tags.push("like-pattern-with-backslash");
+            }
+            if pat.contains('\u{10FFFF}') || pat.contains('\u{7f}') {
+                tags.push("like-pattern-increment-edge");
+            }
+            if !negated && !ci && has_backslash_before_ordinary(pat) {
+                *probe = Some(Probe::LikeBackslash(sc, pat.to_string()));
+            }
+            let pat = if rng.chance(1, 25) { None } else { Some(pat) };
+            if pat.is_none() {
+                *probe = None;
+            }
+            Arc::new(LikeExpr::new(negated, ci, scol(sc), slit(sc, pat)))
+        }
+        10 | 11 => {
+            tags.push("string-cmp");
+            let l = slit_o(sc, if rng.chance(1, 10) { None } else { Some(sl(rng)) });
+            if rng.chance(1, 3) { bin(l, cmp_op(*rng.pick(&OPS)), scol(sc)) } else { bin(scol(sc), cmp_op(*rng.pick(&OPS)), l) }
+        }
+        12 | 13 => {
+            tags.push("bool-vs-literal");
+            let l = blit(*rng.pick(&[Some(true), Some(false), None]));
+            let op = *rng.pick(&[Operator::Eq, Operator::NotEq, Operator::Eq]);
+            let c: PE = if rng.chance(1, 4) { Arc::new(NotExpr::new(bcol(0))) } else { bcol(0) };
+            if rng.chance(1, 3) { bin(l, op, c) } else { bin(c, op, l) }
+        }
+        14..=16 => {
+            // CAST / TRY_CAST of the column
+            let (dt, lit): (DataType, PE) = match rng.below(5) {
+                0 => (DataType::Int32, Arc::new(Literal::new(ScalarValue::Int32(small(rng).map(|x| x as i32))))),
+                1 => (DataType::Int16, Arc::new(Literal::new(ScalarValue::Int16(small(rng).map(|x| x as i16))))),
+                2 => (DataType::Int8, Arc::new(Literal::new(ScalarValue::Int8(small(rng).map(|x| x as i8))))),
+                3 => (DataType::Utf8, Arc::new(Literal::new(ScalarValue::Utf8(Some(rng.range(-4, 12).to_string()))))),
+                _ => (DataType::UInt8, Arc::new(Literal::new(ScalarValue::UInt8(Some(rng.below(6) as u8))))),
+            };
+            let is_try = rng.chance(1, 2);
+            tags.push(if is_try { "try_cast" } else { "cast" });
+            if dt == DataType::Utf8 {
+                tags.push("cast-to-string");
+            }
+            let c = if is_try { try_cast(icol(ic), schema, dt) } else { cast(icol(ic), schema, dt) }.unwrap();
+            bin(c, cmp_op(*rng.pick(&OPS)), lit)
+        }
+        17 | 18 => {
+            tags.push("negated-column");
+            bin(Arc::new(NegativeExpr::new(icol(ic))), cmp_op(*rng.pick(&OPS)), ilit(small(rng)))
+        }
+        19 | 20 => {
+            tags.push("column-arithmetic");
+            let k = ilit(Some(rng.range(-3, 3)));
+            let op = *rng.pick(&[Operator::Plus, Operator::Minus, Operator::Multiply]);
+            bin(bin(icol(ic), op, k), cmp_op(*rng.pick(&OPS)), ilit(small(rng)))
+        }
+        21..=24 => {
+            // IN lists: ints / strings, NULL members, > 20 items, non-literal members
+            let negated = rng.chance(1, 2);
+            tags.push(if negated { "not-in" } else { "in" });
+            let n = if rng.chance(1, 8) {
+                tags.push("in-more-than-20");
+                21 + rng.below(4)
+            } else {
+                1 + rng.below(4)
+            } as usize;
+            if rng.chance(1, 4) {
+                let list: Vec<PE> = (0..n).map(|_| slit_o(sc, if rng.chance(1, 8) { None } else { Some(sl(rng)) })).collect();
+                tags.push("in-strings");
+                in_list(scol(sc), list, &negated, schema).unwrap()
+            } else {
+                let mut has_null = false;
+                let mut lits: Vec<i64> = vec![];
+                let mut list: Vec<PE> = (0..n)
+                    .map(|_| {
+                        let v = small(rng);
+                        has_null |= v.is_none();
+                        lits.extend(v);
+                        ilit(v)
+                    })
+                    .collect();
+                if has_null {
+                    tags.push("in-with-null");
+                }
+                if rng.chance(1, 3) {
+                    tags.push("in-non-literal-member");
+                    let other = icol(1 - ic);
+                    let m: PE = if rng.chance(1, 2) { other } else { bin(other, Operator::Plus, ilit(Some(1))) };
+                    let at = rng.below(list.len() as u64 + 1) as usize;
+                    list.insert(at, m);
+                    if !negated {
+                        *probe = Some(Probe::InNonLiteral(ic, lits.clone()));
+                    }
+                }
+                in_list(icol(ic), list, &negated, schema).unwrap()
+            }
+        }
+        25 => {
+            tags.push("is-null");
+            let c = *rng.pick(&[0usize, 1, 2, 3, 4]);
+            let col: PE = Arc::new(Column::new(schema.field(c).name(), c));
+            if rng.chance(1, 2) { Arc::new(IsNullExpr::new(col)) } else { Arc::new(IsNotNullExpr::new(col)) }
+        }
+        _ => {
+            tags.push("modelled-leaf");
+            gen_expr(rng, 0, h).phys(schema)
+        }
+    }
+}
+
+fn has_backslash_before_ordinary(p: &str) -> bool {
+    let cs: Vec<char> = p.chars().collect();
+    let mut i = 0;
+    while i < cs.len() {
+        if cs[i] == '\\' {
+            if i + 1 < cs.len() && !matches!(cs[i + 1], '%' | '_' | '\\') {
+                return true;
+            }
+            i += 2;
+        } else {
+            i += 1;
+        }
+    }
+    false
+}
+
+fn wide_expr(rng: &mut Rng, schema: &Schema, depth: u32, tags: &mut Vec<&'static str>, h: &Hints, probe: &mut Option<Probe>) -> PE {
+    if depth == 0 || rng.chance(1, 3) {
+        return wide_leaf(rng, schema, tags, h, probe);
+    }
+    // probes describe a top-level leaf only
+    let mut none: Option<Probe> = None;
+    let probe = &mut none;
+    match rng.below(7) {
+        0..=2 => bin(wide_expr(rng, schema, depth - 1, tags, h, probe), Operator::And, wide_expr(rng, schema, depth - 1, tags, h, probe)),
+        3..=5 => bin(wide_expr(rng, schema, depth - 1, tags, h, probe), Operator::Or, wide_expr(rng, schema, depth - 1, tags, h, probe)),
+        _ => {
+            tags.push("not");
+            Arc::new(NotExpr::new(wide_expr(rng, schema, depth - 1, tags, h, probe)))
+        }
+    }
+}
+
+/// Targeted scenarios for predicate/container shapes whose pruning hinges on one disjunct or one
+/// un-escaping step (each was once a seeded defect the random generator did not reach):
+/// returns (predicate, probe, rows of the first container, tag)
+fn targeted(rng: &mut Rng, schema: &Schema) -> (PE, Probe, Vec<RowV>, &'static str) {
+    let n = 2 + rng.below(4) as usize;
+    let other = |rng: &mut Rng| -> RowV {
+        RowV {
+            iv: [Some(rng.range(-4, 4)), if rng.chance(1, 4) { None } else { Some(rng.range(-4, 4)) }],
+            bv: [*rng.pick(&[Some(true), Some(false), None])],
+            sv: [Some(gen_str(rng, "fo")), if rng.chance(1, 4) { None } else { Some(gen_str(rng, "foo")) }],
+        }
+    };
+    match rng.below(3) {
+        0 => {
+            // constant column with NULL rows: `col IS DISTINCT FROM const` matches exactly the NULL rows
+            let v = rng.range(-4, 4);
+            let c = rng.below(NI as u64) as usize;
+            let mut rows: Vec<RowV> = (0..n).map(|_| other(rng)).collect();
+            for (k, r) in rows.iter_mut().enumerate() {
+                r.iv[c] = if k == 0 { None } else if k == 1 { Some(v) } else if rng.chance(1, 3) { None } else { Some(v) };
+            }
+            let p = if rng.chance(1, 3) { bin(ilit(Some(v)), Operator::IsDistinctFrom, icol(c)) } else { bin(icol(c), Operator::IsDistinctFrom, ilit(Some(v))) };
+            (p, Probe::DistinctLit(c, v), rows, "targeted/distinct-from-constant-column-with-nulls")
+        }
+        1 => {
+            // all strings share a prefix; the pattern spells it with backslashes before ordinary chars
+            let word = *rng.pick(&["foo", "fob", "fo_x", "f%o", "éa", "fo\\o", "FOo"]);
+            let c = rng.below(NS as u64) as usize;
+            let mut rows: Vec<RowV> = (0..n).map(|_| other(rng)).collect();
+            for r in rows.iter_mut() {
+                r.sv[c] = if rng.chance(1, 6) { None } else { Some(format!("{word}{}", rng.pick(&S_SUFFIX))) };
+            }
+            rows[0].sv[c] = Some(word.to_string());
+            let chars: Vec<char> = word.chars().collect();
+            let forced = rng.below(chars.len() as u64) as usize;
+            let mut pat = String::new();
+            for (k, ch) in chars.iter().enumerate() {
+                let ordinary = !matches!(ch, '%' | '_' | '\\');
+                if !ordinary || rng.chance(1, 3) || (k == forced) {
+                    pat.push('\\');
+                }
+                pat.push(*ch);
+            }
+            pat.push_str(*rng.pick(&["%", "%", ""]));
+            let p: PE = Arc::new(LikeExpr::new(false, false, scol(c), slit(c, Some(&pat))));
+            (p, Probe::LikeBackslash(c, pat), rows, "targeted/like-backslash-before-ordinary-char")
+        }
+        _ => {
+            // `a IN (literals, b)` with rows where a = b is none of the literals
+            let c = rng.below(NI as u64) as usize;
+            let lits: Vec<i64> = (0..1 + rng.below(3)).map(|_| rng.range(5, 9)).collect();
+            let mut rows: Vec<RowV> = (0..n).map(|_| other(rng)).collect();
+            for r in rows.iter_mut() {
+                let v = rng.range(-4, 4);
+                r.iv[c] = Some(v);
+                r.iv[1 - c] = if rng.chance(2, 3) { Some(v) } else { Some(v + 1) };
+            }
+            rows[0].iv[1 - c] = rows[0].iv[c];
+            let mut list: Vec<PE> = lits.iter().map(|v| ilit(Some(*v))).collect();
+            let at = rng.below(list.len() as u64 + 1) as usize;
+            list.insert(at, icol(1 - c));
+            let p = in_list(icol(c), list, &false, schema).unwrap();
+            (p, Probe::InNonLiteral(c, lits), rows, "targeted/in-list-with-non-literal-member")
+        }
+    }
+}
+
+// ------------------------------------------------------------------ rows and statistics
 
 #[derive(Clone, Debug)]
 struct RowV {
     iv: [Option<i64>; NI],
     bv: [Option<bool>; NB],
+    sv: [Option<String>; NS],
 }
 
 #[derive(Clone, Debug, Default)]
@@ -175,15 +567,23 @@ struct CStat {
     inulls: [Option<u64>; NI],
     bmin: [Option<bool>; NB],
     bmax: [Option<bool>; NB],
+    bnulls: [Option<u64>; NB],
+    smin: [Option<String>; NS],
+    smax: [Option<String>; NS],
+    snulls: [Option<u64>; NS],
     rows: Option<u64>,
 }
 impl CStat {
+    /// what the Lean model sees (int and bool columns)
     fn sexp(&self) -> String {
         let ic: Vec<String> = (0..NI)
             .map(|c| format!("({} {} {})", s_oi(self.imin[c]), s_oi(self.imax[c]), self.inulls[c].map(|x| x.to_string()).unwrap_or("n".into())))
             .collect();
         let bc: Vec<String> = (0..NB).map(|c| format!("({} {})", s_ob(self.bmin[c]), s_ob(self.bmax[c]))).collect();
         format!("((ic {}) (bc {}) {})", ic.join(" "), bc.join(" "), self.rows.map(|x| x.to_string()).unwrap_or("n".into()))
+    }
+    fn full(&self) -> String {
+        format!("{} smin={:?} smax={:?} snulls={:?} bnulls={:?}", self.sexp(), self.smin, self.smax, self.snulls, self.bnulls)
     }
 }
 
@@ -192,7 +592,11 @@ fn gen_rows(rng: &mut Rng) -> Vec<RowV> {
     // per-container flavour: narrow value ranges make pruning fire
     let base = rng.range(-4, 4);
     let spread = rng.below(4) as i64;
-    let null_mode = rng.below(4); // 0: no nulls, 1: some, 2: column 0 all null, 3: some
+    let null_mode = rng.below(4); // 0: no nulls, 1: some, 2: first column of each kind all null, 3: some
+    let sbase = *rng.pick(&S_BASE);
+    let sconst = rng.chance(1, 4); // min == max containers
+    let sfix = gen_str(rng, sbase);
+    let big = rng.chance(1, 12);
     (0..n)
         .map(|_| {
             let mut iv = [None; NI];
@@ -204,8 +608,9 @@ fn gen_rows(rng: &mut Rng) -> Vec<RowV> {
                 };
                 if !isnull {
                     *slot = Some(match rng.below(30) {
-                        0 => i64::MIN,
-                        1 => i64::MAX,
+                        0 if big => i64::MIN,
+                        1 if big => i64::MAX,
+                        2 if big => 200 + rng.range(0, 200),
                         _ => base + rng.range(0, spread),
                     });
                 }
@@ -217,12 +622,46 @@ fn gen_rows(rng: &mut Rng) -> Vec<RowV> {
                 2 => None,
                 _ => Some(rng.chance(1, 2)),
             }];
-            RowV { iv, bv }
+            let mut sv: [Option<String>; NS] = [None, None];
+            for (c, slot) in sv.iter_mut().enumerate() {
+                let isnull = match null_mode {
+                    0 => false,
+                    2 => c == 0 || rng.chance(1, 4),
+                    _ => rng.chance(1, 4),
+                };
+                if !isnull {
+                    *slot = Some(if sconst { sfix.clone() } else { gen_str(rng, sbase) });
+                }
+            }
+            RowV { iv, bv, sv }
         })
         .collect()
 }
 
 /// exact statistics of the rows, then weakened
+/// exact statistics (targeted scenarios): nothing loosened; the null counts unknown 1/3 of the time
+fn stats_exact(rows: &[RowV], rng: &mut Rng) -> CStat {
+    let mut s = CStat::default();
+    let drop_nulls = rng.chance(1, 3);
+    for c in 0..NI {
+        s.imin[c] = rows.iter().filter_map(|r| r.iv[c]).min();
+        s.imax[c] = rows.iter().filter_map(|r| r.iv[c]).max();
+        s.inulls[c] = if drop_nulls { None } else { Some(rows.iter().filter(|r| r.iv[c].is_none()).count() as u64) };
+    }
+    for c in 0..NB {
+        s.bmin[c] = rows.iter().filter_map(|r| r.bv[c]).min();
+        s.bmax[c] = rows.iter().filter_map(|r| r.bv[c]).max();
+        s.bnulls[c] = Some(rows.iter().filter(|r| r.bv[c].is_none()).count() as u64);
+    }
+    for c in 0..NS {
+        s.smin[c] = rows.iter().filter_map(|r| r.sv[c].clone()).min();
+        s.smax[c] = rows.iter().filter_map(|r| r.sv[c].clone()).max();
+        s.snulls[c] = if drop_nulls { None } else { Some(rows.iter().filter(|r| r.sv[c].is_none()).count() as u64) };
+    }
+    s.rows = Some(rows.len() as u64);
+    s
+}
+
 fn stats_of(rows: &[RowV], rng: &mut Rng, run: &mut Run) -> CStat {
     let mut s = CStat::default();
     for c in 0..NI {
@@ -231,6 +670,9 @@ fn stats_of(rows: &[RowV], rng: &mut Rng, run: &mut Run) -> CStat {
         if let (Some(mn), Some(mx)) = (vals.iter().min(), vals.iter().max()) {
             s.imin[c] = Some(mn.saturating_sub(loosen(rng)));
             s.imax[c] = Some(mx.saturating_add(loosen(rng)));
+            if s.imin[c] == s.imax[c] {
+                run.count("stats/int-min-eq-max");
+            }
         } else if rng.chance(1, 3) {
             // no non-null value: any bound is valid ("junk" bounds exercise the null-count wrap)
             s.imin[c] = Some(rng.range(-4, 4));
@@ -257,11 +699,49 @@ fn stats_of(rows: &[RowV], rng: &mut Rng, run: &mut Run) -> CStat {
             s.bmin[c] = Some(*mn && rng.chance(5, 6));
             s.bmax[c] = Some(*mx || rng.chance(1, 6));
         }
+        s.bnulls[c] = Some(rows.iter().filter(|r| r.bv[c].is_none()).count() as u64);
         if rng.chance(1, 6) {
             s.bmin[c] = None;
         }
         if rng.chance(1, 6) {
             s.bmax[c] = None;
+        }
+        if rng.chance(1, 5) {
+            s.bnulls[c] = None;
+        }
+    }
+    for c in 0..NS {
+        let vals: Vec<&String> = rows.iter().filter_map(|r| r.sv[c].as_ref()).collect();
+        if let (Some(mn), Some(mx)) = (vals.iter().min(), vals.iter().max()) {
+            // valid looser bounds: a proper prefix is <= the string, string + U+10FFFF is >= it
+            let mut lo = (**mn).clone();
+            let mut hi = (**mx).clone();
+            if rng.chance(1, 5) {
+                lo.pop();
+                run.count("stats/string-min-loosened");
+            }
+            if rng.chance(1, 5) {
+                hi.push('\u{10FFFF}');
+                run.count("stats/string-max-loosened");
+            }
+            if lo == hi {
+                run.count("stats/string-min-eq-max");
+            }
+            s.smin[c] = Some(lo);
+            s.smax[c] = Some(hi);
+        } else if rng.chance(1, 3) {
+            s.smin[c] = Some(gen_str(rng, "fo"));
+            s.smax[c] = Some(gen_str(rng, "fo"));
+        }
+        s.snulls[c] = Some(rows.iter().filter(|r| r.sv[c].is_none()).count() as u64);
+        if rng.chance(1, 6) {
+            s.smin[c] = None;
+        }
+        if rng.chance(1, 6) {
+            s.smax[c] = None;
+        }
+        if rng.chance(1, 6) {
+            s.snulls[c] = None;
         }
     }
     s.rows = Some(rows.len() as u64);
@@ -274,82 +754,115 @@ fn stats_of(rows: &[RowV], rng: &mut Rng, run: &mut Run) -> CStat {
 
 struct Stats {
     cs: Vec<CStat>,
-    /// whole-column "no statistics" switches
-    drop_min: [bool; NI],
-    drop_max: [bool; NI],
-    drop_nulls: [bool; NI],
-    drop_rows: bool,
-    /// real value sets for `contained` (None = answer unknown)
+    /// real value sets for `contained` (None = the provider has no membership information)
     values: Option<Vec<Vec<RowV>>>,
+    /// randomness for "sometimes answer None"
+    rng: RefCell<Rng>,
+    contained_calls: RefCell<(u64, u64)>,
 }
-fn col_index(c: &DfColumn) -> (bool, usize) {
+
+/// (kind, index): kind 0 = int, 1 = bool, 2 = string
+fn col_index(c: &DfColumn) -> (u8, usize) {
     let n = c.name();
-    (n.starts_with('b'), n[1..].parse().unwrap())
+    let k = match n.as_bytes()[0] {
+        b'i' => 0,
+        b'b' => 1,
+        _ => 2,
+    };
+    (k, n[1..].parse().unwrap())
+}
+fn str_array(c: usize, vals: Vec<Option<String>>) -> ArrayRef {
+    if c == 0 { Arc::new(StringArray::from(vals)) } else { Arc::new(StringViewArray::from(vals)) }
 }
 impl PruningStatistics for Stats {
     fn min_values(&self, column: &DfColumn) -> Option<ArrayRef> {
-        let (is_b, c) = col_index(column);
-        if is_b {
-            Some(Arc::new(BooleanArray::from(self.cs.iter().map(|s| s.bmin[c]).collect::<Vec<_>>())))
-        } else if self.drop_min[c] {
-            None
-        } else {
-            Some(Arc::new(Int64Array::from(self.cs.iter().map(|s| s.imin[c]).collect::<Vec<_>>())))
-        }
+        let (k, c) = col_index(column);
+        Some(match k {
+            0 => Arc::new(Int64Array::from(self.cs.iter().map(|s| s.imin[c]).collect::<Vec<_>>())),
+            1 => Arc::new(BooleanArray::from(self.cs.iter().map(|s| s.bmin[c]).collect::<Vec<_>>())),
+            _ => str_array(c, self.cs.iter().map(|s| s.smin[c].clone()).collect()),
+        })
     }
     fn max_values(&self, column: &DfColumn) -> Option<ArrayRef> {
-        let (is_b, c) = col_index(column);
-        if is_b {
-            Some(Arc::new(BooleanArray::from(self.cs.iter().map(|s| s.bmax[c]).collect::<Vec<_>>())))
-        } else if self.drop_max[c] {
-            None
-        } else {
-            Some(Arc::new(Int64Array::from(self.cs.iter().map(|s| s.imax[c]).collect::<Vec<_>>())))
-        }
+        let (k, c) = col_index(column);
+        Some(match k {
+            0 => Arc::new(Int64Array::from(self.cs.iter().map(|s| s.imax[c]).collect::<Vec<_>>())),
+            1 => Arc::new(BooleanArray::from(self.cs.iter().map(|s| s.bmax[c]).collect::<Vec<_>>())),
+            _ => str_array(c, self.cs.iter().map(|s| s.smax[c].clone()).collect()),
+        })
     }
     fn num_containers(&self) -> usize {
         self.cs.len()
     }
     fn null_counts(&self, column: &DfColumn) -> Option<ArrayRef> {
-        let (is_b, c) = col_index(column);
-        if is_b || self.drop_nulls[c] {
-            None
-        } else {
-            Some(Arc::new(UInt64Array::from(self.cs.iter().map(|s| s.inulls[c]).collect::<Vec<_>>())))
+        let (k, c) = col_index(column);
+        let v: Vec<Option<u64>> = self
+            .cs
+            .iter()
+            .map(|s| match k {
+                0 => s.inulls[c],
+                1 => s.bnulls[c],
+                _ => s.snulls[c],
+            })
+            .collect();
+        if v.iter().all(|x| x.is_none()) {
+            return None; // "no null-count statistics for this column at all"
         }
+        Some(Arc::new(UInt64Array::from(v)))
     }
     fn row_counts(&self) -> Option<ArrayRef> {
-        if self.drop_rows {
-            None
-        } else {
-            Some(Arc::new(UInt64Array::from(self.cs.iter().map(|s| s.rows).collect::<Vec<_>>())))
+        let v: Vec<Option<u64>> = self.cs.iter().map(|s| s.rows).collect();
+        if v.iter().all(|x| x.is_none()) {
+            return None;
         }
+        Some(Arc::new(UInt64Array::from(v)))
     }
     fn contained(&self, column: &DfColumn, values: &HashSet<ScalarValue>) -> Option<BooleanArray> {
         let vs = self.values.as_ref()?;
-        let (is_b, c) = col_index(column);
-        if is_b {
+        let (k, c) = col_index(column);
+        self.contained_calls.borrow_mut().0 += 1;
+        if k == 1 || self.rng.borrow_mut().chance(1, 6) {
             return None;
         }
-        // true: every (non-null) value of the column is in the set; false: none is; else unknown
-        Some(BooleanArray::from(
-            vs.iter()
-                .map(|rows| {
-                    let col: Vec<Option<i64>> = rows.iter().map(|r| r.iv[c]).collect();
-                    if col.iter().any(|v| v.is_none()) || col.is_empty() {
-                        return None; // NULLs: stay unknown
-                    }
-                    let ins: Vec<bool> = col.iter().map(|v| values.contains(&ScalarValue::Int64(*v))).collect();
-                    if ins.iter().all(|x| *x) {
-                        Some(true)
-                    } else if ins.iter().all(|x| !*x) {
-                        Some(false)
-                    } else {
-                        None
-                    }
-                })
-                .collect::<Vec<_>>(),
-        ))
+        let in_set = |r: &RowV| -> Option<bool> {
+            // None: the column value is NULL
+            match k {
+                0 => r.iv[c].map(|v| values.contains(&ScalarValue::Int64(Some(v)))),
+                _ => r.sv[c].as_ref().map(|v| {
+                    values.contains(&ScalarValue::Utf8(Some(v.clone())))
+                        || values.contains(&ScalarValue::Utf8View(Some(v.clone())))
+                        || values.contains(&ScalarValue::LargeUtf8(Some(v.clone())))
+                }),
+            }
+        };
+        let mut any_definite = false;
+        let out: Vec<Option<bool>> = vs
+            .iter()
+            .map(|rows| {
+                if self.rng.borrow_mut().chance(1, 8) {
+                    return None;
+                }
+                let ins: Vec<Option<bool>> = rows.iter().map(in_set).collect();
+                // a NULL is not one of `values`: "only contains values from the set" is false with a NULL
+                let all_in = ins.iter().all(|x| *x == Some(true));
+                let none_in = ins.iter().all(|x| *x != Some(true));
+                let r = if ins.is_empty() {
+                    None
+                } else if all_in {
+                    Some(true)
+                } else if none_in {
+                    Some(false)
+                } else {
+                    None
+                };
+                any_definite |= r.is_some();
+                r
+            })
+            .collect();
+        if any_definite {
+            self.contained_calls.borrow_mut().1 += 1;
+        }
+        Some(BooleanArray::from(out))
     }
 }
 
@@ -361,6 +874,8 @@ fn schema() -> SchemaRef {
     for c in 0..NB {
         f.push(Field::new(format!("b{c}"), DataType::Boolean, true));
     }
+    f.push(Field::new("s0", DataType::Utf8, true));
+    f.push(Field::new("s1", DataType::Utf8View, true));
     Arc::new(Schema::new(f))
 }
 
@@ -372,11 +887,14 @@ fn batch_of(schema: &SchemaRef, rows: &[RowV]) -> RecordBatch {
     for c in 0..NB {
         cols.push(Arc::new(BooleanArray::from(rows.iter().map(|r| r.bv[c]).collect::<Vec<_>>())));
     }
+    for c in 0..NS {
+        cols.push(str_array(c, rows.iter().map(|r| r.sv[c].clone()).collect()));
+    }
     RecordBatch::try_new(Arc::clone(schema), cols).unwrap()
 }
 
 /// engine row-by-row truth values
-fn engine_eval(p: &Arc<dyn PhysicalExpr>, schema: &SchemaRef, rows: &[RowV]) -> Result<Vec<Option<bool>>, String> {
+fn engine_eval(p: &PE, schema: &SchemaRef, rows: &[RowV]) -> Result<Vec<Option<bool>>, String> {
     if rows.is_empty() {
         return Ok(vec![]);
     }
@@ -387,47 +905,135 @@ fn engine_eval(p: &Arc<dyn PhysicalExpr>, schema: &SchemaRef, rows: &[RowV]) -> 
     Ok((0..a.len()).map(|i| if a.is_null(i) { None } else { Some(a.value(i)) }).collect())
 }
 
+/// whole-column "no statistics" switches are expressed by making every container unknown
+fn drop_columns(cs: &mut [CStat], rng: &mut Rng) {
+    for c in 0..NI {
+        if rng.chance(1, 15) {
+            cs.iter_mut().for_each(|s| s.imin[c] = None);
+        }
+        if rng.chance(1, 15) {
+            cs.iter_mut().for_each(|s| s.imax[c] = None);
+        }
+        if rng.chance(1, 15) {
+            cs.iter_mut().for_each(|s| s.inulls[c] = None);
+        }
+    }
+    for c in 0..NS {
+        if rng.chance(1, 15) {
+            cs.iter_mut().for_each(|s| s.smin[c] = None);
+        }
+        if rng.chance(1, 15) {
+            cs.iter_mut().for_each(|s| s.smax[c] = None);
+        }
+        if rng.chance(1, 15) {
+            cs.iter_mut().for_each(|s| s.snulls[c] = None);
+        }
+    }
+    if rng.chance(1, 12) {
+        cs.iter_mut().for_each(|s| s.rows = None);
+    }
+}
+
+/// (iv) every row satisfying `p` satisfies every derived literal guarantee
+fn check_guarantees(run: &mut Run, p: &PE, conts: &[Vec<RowV>], truth: &[Result<Vec<Option<bool>>, String>], shown: &str) {
+    let gs = LiteralGuarantee::analyze(p);
+    run.add("guarantees-derived", gs.len() as u64);
+    for g in &gs {
+        let name = g.column.name();
+        let k = match name.as_bytes()[0] {
+            b'i' => 0,
+            b'b' => 1,
+            _ => 2,
+        };
+        let c: usize = name[1..].parse().unwrap();
+        let mut bad: Option<String> = None;
+        for (rows, t) in conts.iter().zip(truth.iter()) {
+            let Ok(t) = t else { continue };
+            for (r, v) in rows.iter().zip(t.iter()) {
+                if *v != Some(true) {
+                    continue;
+                }
+                // is the row's column value one of the literals?  None = the value is NULL
+                let member: Option<bool> = match k {
+                    0 => r.iv[c].map(|x| g.literals.contains(&ScalarValue::Int64(Some(x)))),
+                    1 => r.bv[c].map(|x| g.literals.contains(&ScalarValue::Boolean(Some(x)))),
+                    _ => r.sv[c].as_ref().map(|x| {
+                        g.literals.contains(&ScalarValue::Utf8(Some(x.clone()))) || g.literals.contains(&ScalarValue::Utf8View(Some(x.clone()))) || g.literals.contains(&ScalarValue::LargeUtf8(Some(x.clone())))
+                    }),
+                };
+                let ok = match g.guarantee {
+                    Guarantee::In => member == Some(true),
+                    Guarantee::NotIn => member != Some(true),
+                };
+                if !ok && bad.is_none() {
+                    bad = Some(format!("{r:?}"));
+                }
+            }
+        }
+        let mut lits: Vec<String> = g.literals.iter().map(|l| l.to_string()).collect();
+        lits.sort();
+        run.oracle(
+            bad.is_none(),
+            &format!("guarantee-violated expr=[{shown}] guarantee={} {:?} ({})", name, g.guarantee, lits.join(",")),
+            &format!("row {:?} satisfies the predicate but not the guarantee", bad),
+        );
+    }
+}
+
 pub fn run(run: &mut Run, args: &Args) {
     let mut rng = Rng::new(args.seed);
     let schema = schema();
     let n_cases = run.budget(6000, 120_000);
-    for _ in 0..n_cases {
+    for case_no in 0..n_cases {
+        // even cases: modelled fragment (goes to the Lean model); odd cases: wide generator (oracle only)
+        let modelled = case_no % 2 == 0;
         let depth = 1 + rng.below(3) as u32;
-        let e = gen_expr(&mut rng, depth);
-        e.count_kinds(run);
-        let p = e.phys(&schema);
+        let mut tags: Vec<&'static str> = vec![];
+        let mut probe: Option<Probe> = None;
         let nc = 1 + rng.below(4) as usize;
-        let conts: Vec<Vec<RowV>> = (0..nc).map(|_| gen_rows(&mut rng)).collect();
-        let cs: Vec<CStat> = conts.iter().map(|r| stats_of(r, &mut rng, run)).collect();
-        let mut st = Stats { cs, drop_min: [false; NI], drop_max: [false; NI], drop_nulls: [false; NI], drop_rows: rng.chance(1, 12), values: None };
-        for c in 0..NI {
-            st.drop_min[c] = rng.chance(1, 15);
-            st.drop_max[c] = rng.chance(1, 15);
-            st.drop_nulls[c] = rng.chance(1, 15);
+        let mut conts: Vec<Vec<RowV>> = (0..nc).map(|_| gen_rows(&mut rng)).collect();
+        let is_targeted = !modelled && case_no % 8 == 1;
+        let mut targeted_pred: Option<PE> = None;
+        if is_targeted {
+            let (tp, pr, rows, tag) = targeted(&mut rng, &schema);
+            conts[0] = rows;
+            probe = Some(pr);
+            tags.push(tag);
+            targeted_pred = Some(tp);
         }
-        // what the model sees: whole-column drops = every container unknown
-        let seen: Vec<CStat> = st
-            .cs
-            .iter()
-            .map(|s| {
-                let mut s = s.clone();
-                for c in 0..NI {
-                    if st.drop_min[c] {
-                        s.imin[c] = None;
-                    }
-                    if st.drop_max[c] {
-                        s.imax[c] = None;
-                    }
-                    if st.drop_nulls[c] {
-                        s.inulls[c] = None;
-                    }
-                }
-                if st.drop_rows {
-                    s.rows = None;
-                }
-                s
-            })
-            .collect();
+        let mut hints = Hints::default();
+        for r in conts.iter().flatten() {
+            hints.ints.extend(r.iv.iter().flatten());
+            hints.strs.extend(r.sv.iter().flatten().cloned());
+        }
+        let (e, p): (Option<E>, PE) = if modelled {
+            let e = gen_expr(&mut rng, depth, &hints);
+            e.count_kinds(run);
+            let p = e.phys(&schema);
+            (Some(e), p)
+        } else {
+            let p = match targeted_pred {
+                Some(tp) => tp,
+                None => wide_expr(&mut rng, &schema, depth, &mut tags, &hints, &mut probe),
+            };
+            tags.sort();
+            tags.dedup();
+            for t in &tags {
+                run.count(&format!("wide/{t}"));
+            }
+            (None, p)
+        };
+        let shown = match &e {
+            Some(e) => e.sexp(),
+            None => p.to_string().replace('\n', " "),
+        };
+        let mut cs: Vec<CStat> = conts.iter().map(|r| stats_of(r, &mut rng, run)).collect();
+        if is_targeted {
+            cs[0] = stats_exact(&conts[0], &mut rng);
+        } else {
+            drop_columns(&mut cs, &mut rng);
+        }
+        let mut st = Stats { cs, values: None, rng: RefCell::new(rng.fork()), contained_calls: RefCell::new((0, 0)) };
 
         let pp = match PruningPredicateBuilder::new().with_file_schema(Arc::clone(&schema)).try_build(Arc::clone(&p)) {
             Ok(pp) => pp,
@@ -436,21 +1042,57 @@ pub fn run(run: &mut Run, args: &Args) {
                 continue;
             }
         };
+        if !modelled && !pp.always_true() {
+            run.count("wide/rewrite-not-always-true");
+        }
         // engine truth values per container
         let truth: Vec<Result<Vec<Option<bool>>, String>> = conts.iter().map(|rows| engine_eval(&p, &schema, rows)).collect();
-        for (rows, t) in conts.iter().zip(truth.iter()) {
-            if let Ok(t) = t {
-                if !rows.is_empty() {
-                    let rs: Vec<String> = rows
-                        .iter()
-                        .map(|r| format!("(({}) ({}))", r.iv.iter().map(|v| s_oi(*v)).collect::<Vec<_>>().join(" "), r.bv.iter().map(|v| s_ob(*v)).collect::<Vec<_>>().join(" ")))
-                        .collect();
-                    let ans: Vec<String> = t.iter().map(|v| s_ob(*v)).collect();
-                    run.case("eval", &format!("({} ({}))", e.sexp(), rs.join(" ")), &ans.join(" "), t.iter().any(|v| *v == Some(true)) && t.iter().any(|v| *v != Some(true)));
+        if let Some(e) = &e {
+            for (rows, t) in conts.iter().zip(truth.iter()) {
+                if let Ok(t) = t {
+                    if !rows.is_empty() {
+                        let rs: Vec<String> = rows
+                            .iter()
+                            .map(|r| format!("(({}) ({}))", r.iv.iter().map(|v| s_oi(*v)).collect::<Vec<_>>().join(" "), r.bv.iter().map(|v| s_ob(*v)).collect::<Vec<_>>().join(" ")))
+                            .collect();
+                        let ans: Vec<String> = t.iter().map(|v| s_ob(*v)).collect();
+                        run.case("eval", &format!("({} ({}))", e.sexp(), rs.join(" ")), &ans.join(" "), t.iter().any(|v| *v == Some(true)) && t.iter().any(|v| *v != Some(true)));
+                    }
                 }
-            } else {
-                run.count("engine-eval-error");
             }
+        }
+        // generator sensitivity: inputs on which the three historically seeded defects would show
+        if let Some(pr) = &probe {
+            for (k, rows) in conts.iter().enumerate() {
+                let Ok(t) = &truth[k] else { continue };
+                let matching = t.iter().any(|v| *v == Some(true));
+                match pr {
+                    Probe::DistinctLit(c, v) => {
+                        // min == max == literal (known), NULL rows present: kept only by `null_count > 0`
+                        let stt = &st.cs[k];
+                        if stt.imin[*c] == Some(*v) && stt.imax[*c] == Some(*v) && rows.iter().any(|r| r.iv[*c].is_none()) && matching {
+                            run.count(if stt.inulls[*c].is_some() { "sensitive/distinct-from-literal: min=max=literal with NULL rows" } else { "sensitive/distinct-from-literal: min=max=literal, null count unknown" });
+                        }
+                    }
+                    Probe::LikeBackslash(c, pat) => {
+                        // a prefix computed WITHOUT un-escaping `\x` would put the container outside the range
+                        let wrong: String = pat.chars().take_while(|ch| !matches!(ch, '%' | '_')).collect();
+                        let stt = &st.cs[k];
+                        if matching && (stt.smax[*c].as_ref().is_some_and(|m| m.as_str() < wrong.as_str()) || stt.smin[*c].as_ref().is_some_and(|m| m.as_str() > wrong.as_str() && !m.starts_with(&wrong))) {
+                            run.count("sensitive/like: backslash before ordinary char, matching rows outside the un-unescaped prefix range");
+                        }
+                    }
+                    Probe::InNonLiteral(c, lits) => {
+                        // a row satisfies `a IN (lits, b)` through the non-literal member only
+                        if rows.iter().zip(t.iter()).any(|(r, v)| *v == Some(true) && r.iv[*c].is_some_and(|x| !lits.contains(&x))) {
+                            run.count("sensitive/in-list: row matches through the non-literal member only");
+                        }
+                    }
+                }
+            }
+        }
+        if truth.iter().any(|t| t.is_err()) {
+            run.count("engine-eval-error(container skipped by the oracle)");
         }
         for pass in 0..2 {
             if pass == 1 {
@@ -465,11 +1107,20 @@ pub fn run(run: &mut Run, args: &Args) {
             };
             let n_skip = bits.iter().filter(|b| !**b).count();
             if pass == 0 {
-                run.add("containers", bits.len() as u64);
-                run.add("containers-skipped-by-impl", n_skip as u64);
+                run.add(if modelled { "containers" } else { "wide/containers" }, bits.len() as u64);
+                run.add(if modelled { "containers-skipped-by-impl" } else { "wide/containers-skipped-by-impl" }, n_skip as u64);
                 let bs: Vec<&str> = bits.iter().map(|b| if *b { "k" } else { "s" }).collect();
-                let cs: Vec<String> = seen.iter().map(|s| s.sexp()).collect();
-                run.case("prune", &format!("({} ({}) ({}))", e.sexp(), cs.join(" "), bs.join(" ")), "ok", n_skip > 0);
+                let csx: Vec<String> = st.cs.iter().map(|s| s.sexp()).collect();
+                match &e {
+                    Some(e) => run.case("prune", &format!("({} ({}) ({}))", e.sexp(), csx.join(" "), bs.join(" ")), "ok", n_skip > 0),
+                    // outside the Lean model: the driver answers `unsupported` (counted as uncovered)
+                    None => run.case("prune", &format!("((unsupported {}) ({}))", tags.join(" "), bs.join(" ")), "ok", n_skip > 0),
+                }
+                if n_skip > 0 {
+                    for t in &tags {
+                        run.count(&format!("wide-skipped/{t}"));
+                    }
+                }
             } else {
                 run.add("containers-skipped-with-contained", n_skip as u64);
             }
@@ -478,15 +1129,23 @@ pub fn run(run: &mut Run, args: &Args) {
                 if !*keep {
                     if let Ok(t) = &truth[k] {
                         let hit = t.iter().position(|v| *v == Some(true));
+                        // the one reproduced defect class: `-col op lit` is rewritten to `col op' -lit`, but the
+                        // engine negates with wrapping, so a row holding i64::MIN (−MIN = MIN) matches
+                        let class = if tags.contains(&"negated-column") && conts[k].iter().any(|r| r.iv.contains(&Some(i64::MIN))) { "negated-column-int-min" } else { "general" };
                         run.oracle(
                             hit.is_none(),
-                            &format!("prune-skips-matching{} expr={} stats={}", if pass == 1 { "-contained" } else { "" }, e.sexp(), seen[k].sexp()),
+                            &format!("prune-skips-matching{} class={class} expr=[{}] stats={}", if pass == 1 { "-contained" } else { "" }, shown, st.cs[k].full()),
                             &format!("container {k} skipped but row {:?} = {:?} satisfies the predicate", hit, hit.map(|h| &conts[k][h])),
                         );
                     }
                 }
             }
         }
+        let (calls, definite) = *st.contained_calls.borrow();
+        run.add("contained-calls", calls);
+        run.add("contained-calls-with-definite-answer", definite);
+        // (iv) literal guarantees against the rows
+        check_guarantees(run, &p, &conts, &truth, &shown);
     }
-    run.note("rows: 0..5 per container, values base+0..3 in -4..7 plus i64::MIN/MAX, NULLs in 4 modes (none/some/all-null column); stats exact then loosened by 0/1/2/5, unknown per container (1/6) or per column (1/15), junk bounds for all-NULL columns; predicates depth 1..3 over cmp/cmpR/col-col/IS [NOT] NULL/bool col/NOT/AND/OR/IN (1..4 and 21..23 elements, NULL elements)");
+    run.note("columns i0,i1 Int64, b0 Boolean, s0 Utf8, s1 Utf8View; rows 0..5 per container; ints base+0..3 in -4..7 (+ i64::MIN/MAX/200.. in 1/12 containers); strings base{fo,foo,f,'',é,fo\\u7f,fo\\u10FFFF,FO,fo\\,\\u10FFFF} + suffix (14 kinds) or one constant per container (min == max); NULLs in 4 modes; statistics exact then loosened, unknown per container (1/6) / per column (1/15), junk bounds on all-NULL columns; even cases = modelled fragment (Lean), odd cases = wide generator (oracle only, model answers unsupported)");
 }
